@@ -113,6 +113,14 @@ Section SEM.
         end
     end.
 
+  (* the same over the analysed form (list of distinct terms + tree of term indices) *)
+  Fixpoint cond_sem (terms : list attr_sel) (rows : list irow) (c : condition) : bool :=
+    match c with
+    | CTerm i => match nth_error terms i with Some t => existsb (term_sem t) rows | None => false end
+    | CBin AOAnd l r => cond_sem terms rows l && cond_sem terms rows r
+    | CBin _ l r => cond_sem terms rows l || cond_sem terms rows r
+    end.
+
   (* spans = groups of index rows with the same (trace, span) ids, inside the time window *)
   Definition in_window (c : ctx) (r : irow) : bool := (from_ns c <=? r_ts r)%Z && (r_ts r <? to_ns c)%Z.
   Definition same_span (a b : irow) : bool := String.eqb (r_trace a) (r_trace b) && String.eqb (r_span a) (r_span b).
@@ -243,6 +251,11 @@ Section SEM.
   Definition row := list (string * value).
   Definition table := list row.
 
+  (* a row of tempo_traces_attrs_gin as the evaluator sees it *)
+  Definition row_of_irow (r : irow) : row :=
+    [("date", VStr (r_date r)); ("key", VStr (r_key r)); ("val", VStr (r_val r)); ("trace_id", VStr (r_trace r));
+     ("span_id", VStr (r_span r)); ("timestamp_ns", VInt (r_ts r)); ("duration", VInt (r_dur r))].
+
   Fixpoint lookup (k : string) (r : row) : option value :=
     match r with [] => None | (k', v) :: t => if String.eqb k k' then Some v else lookup k t end.
 
@@ -344,6 +357,23 @@ Section SEM.
     | x :: r => fold_left (fun acc v => match acc with Some a => match vleb v a with Some true => Some v | Some false => Some a | None => None end | None => None end) r (Some x)
     end.
   Definition as_Q (v : value) : option Q := match v with VInt z => Some (inject_Z z) | VNum q => Some q | _ => None end.
+
+  (* bitShiftLeft(toUInt64(t_0),0)+bitShiftLeft(toUInt64(t_1),1)+... in UInt64 arithmetic *)
+  Fixpoint bitset_sum (l : list value) (i : Z) (acc : Z) : option value :=
+    match l with
+    | [] => Some (VInt acc)
+    | VInt b :: l' => bitset_sum l' (i + 1)%Z (u64 (acc + (if (i <? 64)%Z then u64 (Z.shiftl (u64 b) i) else 0)))
+    | VNull :: _ => Some VNull
+    | _ => None
+    end.
+  (* groupBitOr over the non-NULL values of a group *)
+  Fixpoint bitor_fold (l : list value) (acc : Z) : option value :=
+    match l with
+    | [] => Some (VInt acc)
+    | VInt z :: l' => bitor_fold l' (Z.lor acc (u64 z))
+    | VNull :: l' => bitor_fold l' acc
+    | _ => None
+    end.
 
   (* CTE environment: alias -> rows *)
   Definition env := list (string * table).
@@ -459,13 +489,7 @@ Section SEM.
             match all_some (map sub terms) with
             | None => None
             | Some vs =>
-              (fix go (l : list value) (i : Z) (acc : Z) : option value :=
-                 match l with
-                 | [] => Some (VInt acc)
-                 | VInt b :: l' => go l' (i + 1)%Z (u64 (acc + (if (i <? 64)%Z then u64 (Z.shiftl (u64 b) i) else 0)))
-                 | VNull :: _ => Some VNull
-                 | _ => None
-                 end) vs 0%Z 0%Z
+              bitset_sum vs 0%Z 0%Z
             end
         | BitAnd a b =>
             match sub a, sub b with
@@ -477,8 +501,7 @@ Section SEM.
         | GroupBitOr x _ =>
             if agg then
               match all_some (map (fun r' => rowv r' x) g) with
-              | Some vs => (fix go (l : list value) (acc : Z) : option value :=
-                              match l with [] => Some (VInt acc) | VInt z :: l' => go l' (Z.lor acc (u64 z)) | VNull :: l' => go l' acc | _ => None end) vs 0%Z
+              | Some vs => bitor_fold vs 0%Z
               | None => None
               end
             else None
